@@ -16,6 +16,87 @@ def application_classes(p):
     return base, subs
 
 
+def derive(fnode, expr, visited=None):
+    """What is `expr` computed from inside `fnode`?  (names, {(root name, attribute)}): flow-insensitive closure over the
+    local bindings - assignments (tuple targets element-wise when the value is a tuple), augmented assignments,
+    append/extend/update into a local, loop and comprehension variables (their iterables), `with ... as`, and the
+    bodies of nested functions / lambdas referred to by name.  An over-approximation of data dependence that does not
+    care whether a value is written inline, bound to a local first or built by a small closure."""
+    if visited is None:
+        visited = set()
+    names, attrs = set(), set()
+    binds = _bindings(fnode)
+
+    def go(e):
+        for x in ast.walk(e):
+            if isinstance(x, ast.Attribute) and isinstance(x.value, ast.Name):
+                attrs.add((x.value.id, x.attr))
+            if isinstance(x, ast.Name) and isinstance(x.ctx, ast.Load):
+                names.add(x.id)
+                if x.id in visited:
+                    continue
+                visited.add(x.id)
+                for v in binds.get(x.id, []):
+                    go(v)
+
+    go(expr)
+    return names, attrs
+
+
+def _bindings(fnode):
+    cached = getattr(fnode, "_ir_bindings", None)
+    if cached is not None:
+        return cached
+    out = {}
+
+    def bind(t, v):
+        if isinstance(t, ast.Name):
+            out.setdefault(t.id, []).append(v)
+        elif isinstance(t, (ast.Tuple, ast.List)):
+            if isinstance(v, (ast.Tuple, ast.List)) and len(v.elts) == len(t.elts) and not any(isinstance(e, ast.Starred) for e in list(t.elts) + list(v.elts)):
+                for a, b in zip(t.elts, v.elts):
+                    bind(a, b)
+            else:
+                for a in t.elts:
+                    bind(a.value if isinstance(a, ast.Starred) else a, v)
+
+    for n in ast.walk(fnode):
+        if isinstance(n, ast.Assign):
+            for t in n.targets:
+                bind(t, n.value)
+        elif isinstance(n, ast.AnnAssign) and n.value is not None:
+            bind(n.target, n.value)
+        elif isinstance(n, ast.AugAssign):
+            bind(n.target, n.value)
+        elif isinstance(n, (ast.For, ast.comprehension)):
+            bind(n.target, n.iter)
+        elif isinstance(n, ast.With):
+            for it in n.items:
+                if it.optional_vars is not None:
+                    bind(it.optional_vars, it.context_expr)
+        elif isinstance(n, ast.NamedExpr):
+            bind(n.target, n.value)
+        elif isinstance(n, (ast.FunctionDef, ast.AsyncFunctionDef)) and n is not fnode:
+            for st in n.body:
+                out.setdefault(n.name, []).append(st)
+        elif isinstance(n, ast.Call) and isinstance(n.func, ast.Attribute) and n.func.attr in ("append", "extend", "update", "add", "insert", "setdefault") and isinstance(n.func.value, ast.Name):
+            for a in list(n.args) + [k.value for k in n.keywords]:
+                out.setdefault(n.func.value.id, []).append(a)
+        elif isinstance(n, ast.Assign) and False:
+            pass
+    # x[k] = v  stores into the local x
+    for n in ast.walk(fnode):
+        if isinstance(n, ast.Assign):
+            for t in n.targets:
+                if isinstance(t, ast.Subscript) and isinstance(t.value, ast.Name):
+                    out.setdefault(t.value.id, []).append(n.value)
+    try:
+        fnode._ir_bindings = out
+    except Exception:
+        pass
+    return out
+
+
 class NodeFacts:
     def __init__(self, p, c):
         self.cls = c
@@ -39,13 +120,8 @@ class NodeFacts:
                 for k in n.keywords:
                     if k.arg == "inputs":
                         self.inputs_expr = k.value
-        # `inputs = [...]` bound to a local first: use its definition(s)
-        exprs = [self.inputs_expr] if self.inputs_expr is not None else []
-        if isinstance(self.inputs_expr, ast.Name):
-            exprs = [n.value for n in walk_no_nested(init.node) if isinstance(n, ast.Assign) and any(isinstance(t, ast.Name) and t.id == self.inputs_expr.id for t in n.targets)] or exprs
-            exprs += [n.value for n in walk_no_nested(init.node) if isinstance(n, ast.AugAssign) and isinstance(n.target, ast.Name) and n.target.id == self.inputs_expr.id]
-            exprs += [a for n in walk_no_nested(init.node) if isinstance(n, ast.Call) and isinstance(n.func, ast.Attribute) and n.func.attr in ("append", "extend") and norm(n.func.value) == self.inputs_expr.id for a in n.args]
-        self.input_names = {x.id for e in exprs for x in ast.walk(e) if isinstance(x, ast.Name)}
+        # names the inputs list is computed from (inline, through locals, through a validating helper call ...)
+        self.input_names = derive(init.node, self.inputs_expr)[0] if self.inputs_expr is not None else set()
         # _tracer_transform
         self.transform = c.methods.get("_tracer_transform")
         self.eq = c.methods.get("__eq__")
@@ -56,6 +132,10 @@ class NodeFacts:
         if v is None:
             return None
         names = [x.id for x in ast.walk(v) if isinstance(x, ast.Name) and x.id in self.params]
+        if not names:
+            # through a local: `deps = list(additional_dependencies); self.additional_dependencies = deps`
+            got = derive(self.init.node, v)[0]
+            names = [q for q in self.params if q in got]
         return names[0] if names else None
 
     def transformed_fields(self):
@@ -71,6 +151,8 @@ class NodeFacts:
                 for x in ast.walk(n):
                     if isinstance(x, ast.Attribute) and isinstance(x.value, ast.Name) and x.value.id == s:
                         out.add(x.attr)
+                for a in n.args:
+                    out |= {attr for root, attr in derive(self.transform.node, a)[1] if root == s}
                 comp = n
                 par = getattr(n, "_parent", None)
                 while par is not None and not isinstance(par, (ast.ListComp, ast.DictComp, ast.GeneratorExp, ast.SetComp, ast.stmt)):
@@ -86,10 +168,19 @@ class NodeFacts:
         """the constructor call returned by _tracer_transform"""
         if self.transform is None:
             return None
-        for n in ast.walk(self.transform.node):
+        for n in walk_no_nested(self.transform.node):
             if isinstance(n, ast.Return) and isinstance(n.value, ast.Call):
                 return n.value
+            if isinstance(n, ast.Return) and isinstance(n.value, ast.Name):
+                defs = [v for v in _bindings(self.transform.node).get(n.value.id, []) if isinstance(v, ast.Call)]
+                if len(defs) == 1:
+                    return defs[0]
         return None
+
+    def rebuild_sources(self, arg):
+        """fields of self the rebuild argument is derived from (inline, through locals, through a nested function)"""
+        s = self.transform.node.args.args[0].arg
+        return {attr for root, attr in derive(self.transform.node, arg)[1] if root == s}
 
     def eq_fields(self):
         """fields compared as self.X <op> other.X (possibly wrapped identically on both sides)"""
